@@ -18,7 +18,7 @@ func propC02() *Property {
 		Decides: "the structure of the reliable-UDP machinery on every path the compiler can build. R02.1 the sender forgets a segment only under the peer's cumulative ack and inserts it in sendBuf before the first transmission (R13.3); R02.2 the receiver releases segments only at nextRecv, one at a time, and every ack field is a fresh load of nextRecv (R13.1, R13.2); R02.3 the peer's window is learned from every ack and every data segment: in inputAck every successful return of the datagram case is dominated by remoteWindowSize.Store(das.windowSize), in inputData that store is conditional only on the segment being a data/ack segment; R02.4 every data datagram, including duplicates and out-of-window ones, schedules an ack (ackOnDataRecv.Store(true) is unconditional in the datagram case and precedes every drop); R02.5 the ack/heartbeat decision is reached by every invocation of the output step that is not in the output-error state and is gated only by {session opening, ack requested, heartbeat interval} - never by a send or congestion window; the ack carries nextRecv and receiveWindowSize(); R02.6 retransmission: the sendBuf scan is gated only by the retransmission timer, never consults a window, retransmits on timeout, and the duplicate-ack trigger is bounded per segment (an Explorer run shows no path to a transmission with 'dup-ack threshold reached' true, 'within the early-retransmission limit' false and 'timed out' false), so duplicate acks cannot burn the 20-transmission budget; R02.7 only data is deferred while the client waits for the open response (isDataProtocol folded over all 16 protocol numbers is true exactly for the four data protocols; the deferral test returns false unless isClientPacketSessionOpening), and the open response moves the session to established and wakes the sender; R02.9 the congestion window can never reach 0: every write of it is the minimum or is clamped before the function returns, the clamp raises small values, the session's minimum is the positive constant 16, and the send window depends only on congestion window, in-flight count and the peer's window; R02.8 datagram authentication: delivered payloads are AEAD outputs, a bad datagram is discarded without touching the session (R04.1, R04.5).; R02.10 the datagram receive buffer is a constant-size buffer of at least the maximum supported MTU (1500), independent of the local MTU",
 		NotDecided: "liveness under a fair-lossy network as such (a temporal property over histories: needs a model, not this family); timer values and RTO arithmetic; cubic's window evolution; the segment tree's ordering; sequence wrap-around.",
 		Rules: []Rule{
-			{ID: "R02.1", Floor: 4, Text: "sendBuf deletions only under the peer's ack; Insert dominates output (shared with R13.3)", Run: r13_3},
+			{ID: "R02.1", Floor: 2, Text: "sendBuf deletions only under the peer's ack; Insert dominates output (shared with R13.3)", Run: r13_3},
 			{ID: "R02.2", Floor: 5, Text: "in-order release at nextRecv; acks carry nextRecv (shared with R13.1, R13.2)", Run: func(c *RC) { r13_1(c); r13_2(c) }},
 			{ID: "R02.3", Floor: 3, Text: "peer window learned from every ack and data segment", Run: r02_3},
 			{ID: "R02.4", Floor: 1, Text: "every received data datagram schedules an ack", Run: r02_4},
@@ -84,9 +84,35 @@ func r02_3(c *RC) {
 		c.Anchor("Session.remoteWindowSize / dataAckStruct.windowSize")
 		return
 	}
+	// helperStores: a Session method that records the window of the segment
+	// it is given on every path (the loop that removes acknowledged segments
+	// followed by the store, extracted from inputData/inputAck)
+	helperStores := func(h *ssa.Function) bool {
+		if h == nil || h.Blocks == nil || relPkg(h) != protoPkg {
+			return false
+		}
+		var st ssa.Instruction
+		instrs(h, func(_ *ssa.BasicBlock, _ int, in ssa.Instruction) {
+			if n, cl := atomicCallOn(in, rw); n == "Store" {
+				for _, l := range Leaves(cl.Common().Args[1], nil) {
+					if sameField(fieldOrigin(l), ws) {
+						st = in
+					}
+				}
+			}
+		})
+		if st == nil {
+			return false
+		}
+		return reachableAvoiding(h, h.Blocks[0].Instrs[0], isReturn, func(x ssa.Instruction) bool { return x == st }) == nil || st == h.Blocks[0].Instrs[0]
+	}
 	storeOf := func(fn *ssa.Function) []ssa.Instruction {
 		var out []ssa.Instruction
 		instrs(fn, func(_ *ssa.BasicBlock, _ int, in ssa.Instruction) {
+			if cl, ok := in.(*ssa.Call); ok && fn != cl.Call.StaticCallee() && helperStores(cl.Call.StaticCallee()) {
+				out = append(out, in)
+				return
+			}
 			if n, cl := atomicCallOn(in, rw); n == "Store" {
 				ok := false
 				for _, l := range Leaves(cl.Common().Args[1], nil) {
@@ -641,31 +667,31 @@ func r02_6(c *RC) {
 	}
 	mentions := func(v ssa.Value, name string) bool { return mentionsD(v, name, 0) }
 	atom := func(cond ssa.Value) (string, int, bool) {
-		bo, ok := cond.(*ssa.BinOp)
-		if !ok {
+		if _, ok := cond.(*ssa.BinOp); !ok {
 			return "", 0, false
 		}
-		_, xk := bo.X.(*ssa.Const)
-		_, yk := bo.Y.(*ssa.Const)
+		isF := func(name string) func(ssa.Value) bool { return func(v ssa.Value) bool { return fld(v) == name } }
+		isK := func(v ssa.Value) bool { _, ok := v.(*ssa.Const); return ok }
+		bigK := func(v ssa.Value) bool { k, ok := constInt(v); return ok && k >= 10 }
+		smallK := func(v ssa.Value) bool { k, ok := constInt(v); return ok && k < 10 }
+		men := func(name string) func(ssa.Value) bool { return func(v ssa.Value) bool { return mentions(v, name) } }
 		switch {
-		case fld(bo.X) == "ackCount" && yk && (bo.Op == token.GEQ || bo.Op == token.GTR):
+		case cmpForm(cond, token.GEQ, isF("ackCount"), isK), cmpForm(cond, token.GTR, isF("ackCount"), isK):
 			return "dup-acks", 0, true
-		case fld(bo.X) == "ackCount" && yk && (bo.Op == token.LSS || bo.Op == token.LEQ):
+		case cmpForm(cond, token.LSS, isF("ackCount"), isK), cmpForm(cond, token.LEQ, isF("ackCount"), isK):
 			return "dup-acks", 1, true
-		case fld(bo.X) == "txCount" && yk && (bo.Op == token.LEQ || bo.Op == token.LSS):
+		case cmpForm(cond, token.GEQ, isF("txCount"), bigK), cmpForm(cond, token.GTR, isF("txCount"), bigK):
+			return "give-up", 0, true
+		case cmpForm(cond, token.LSS, isF("txCount"), bigK), cmpForm(cond, token.LEQ, isF("txCount"), bigK):
+			return "give-up", 1, true
+		case cmpForm(cond, token.LEQ, isF("txCount"), smallK), cmpForm(cond, token.LSS, isF("txCount"), smallK):
 			return "within-early-limit", 0, true
-		case fld(bo.X) == "txCount" && yk && (bo.Op == token.GEQ || bo.Op == token.GTR):
-			// txCount >= txCountLimit (give up) vs txCount > earlyLimit: tell apart by the constant
-			if k, _ := constInt(bo.Y); k >= 10 {
-				return "give-up", 0, true
-			}
+		case cmpForm(cond, token.GTR, isF("txCount"), smallK), cmpForm(cond, token.GEQ, isF("txCount"), smallK):
 			return "within-early-limit", 1, true
-		case xk && fld(bo.Y) == "txCount":
-			return "", 0, false
-		case mentions(bo.X, "txTime") && mentions(bo.Y, "txTimeout") && (bo.Op == token.GTR || bo.Op == token.GEQ):
+		case cmpForm(cond, token.GTR, men("txTime"), men("txTimeout")), cmpForm(cond, token.GEQ, men("txTime"), men("txTimeout")):
 			return "timed-out", 0, true
-		case mentions(bo.Y, "txTime") && mentions(bo.X, "txTimeout") && (bo.Op == token.LSS || bo.Op == token.LEQ):
-			return "timed-out", 0, true
+		case cmpForm(cond, token.LEQ, men("txTime"), men("txTimeout")), cmpForm(cond, token.LSS, men("txTime"), men("txTimeout")):
+			return "timed-out", 1, true
 		}
 		return "", 0, false
 	}
@@ -850,13 +876,29 @@ func r02_7(c *RC) {
 		if !ok {
 			return
 		}
-		under := false
-		for _, ce := range controllingEdges(b) {
-			if cc, ok := ce.If.Cond.(*ssa.Call); ok && calleeName(cc) == "isClientPacketSessionOpenResponse" && ce.Idx == 0 {
-				under = true
+		// under "this is the open response of an opening client datagram
+		// session": the wrapper predicate, or its two conjuncts inline
+		under, opening, isResp := false, false, false
+		orp, _ := constOf(p, protoPkg, "openSessionResponse")
+		for _, ce := range controlConds(inp, b) {
+			if cc, ok := ce.If.Cond.(*ssa.Call); ok && ce.Idx == 0 {
+				switch calleeName(cc) {
+				case "isClientPacketSessionOpenResponse":
+					under = true
+				case "isClientPacketSessionOpening":
+					opening = true
+				}
+			}
+			isProto := func(v ssa.Value) bool {
+				cl, ok := v.(*ssa.Call)
+				return ok && calleeName(cl) == "Protocol"
+			}
+			isResponse := func(v ssa.Value) bool { k, ok := constInt(v); return ok && k == orp }
+			if (ce.Idx == 0 && cmpForm(ce.If.Cond, token.EQL, isProto, isResponse)) || (ce.Idx == 1 && cmpForm(ce.If.Cond, token.NEQ, isProto, isResponse)) {
+				isResp = true
 			}
 		}
-		if !under {
+		if !under && !(opening && isResp) {
 			return
 		}
 		switch calleeName(cl) {
